@@ -120,8 +120,13 @@ CHECKS = {
             'decreasing is recognised; bins come out strictly increasing; every printed group keeps its own score)',
             'error_eq_value_times_sigma, decreasing_iff, orient_edges, orient_cells, energy_bins_increasing, '
             'energy_score_attached, and convert_energy_axis / convert_single / fillRows_single: on a response with the energy '
-            'axis only the executable model `convert` returns exactly the oriented edges and rows. NOT proved: the composition '
-            'of the step over the time / mu / phi axes inside `convert`, the pyparsing grammar, the mesh / Green '
+            'axis only the executable model `convert` returns exactly the oriented edges and rows. All four axes, any block '
+            'sequence (all_axes_score_attached, via fill_cells / convert_ok / score_at_cursor): when `convert` returns and no two '
+            'blocks were read under the same (time step, mu zone, phi zone) indices, every printed row is the content of the '
+            'cell at (its row index, those indices) in C order, each axis read through the very flip applied to the bins of '
+            'that axis; axis_bins_increasing: that flip makes any strictly monotone edge list strictly increasing; '
+            'time_edges_collected: the time edges are the first bounds of the time steps read. NOT proved: that a well-formed '
+            'printed grid gives distinct indices and the expected bin counts (nbBins), the pyparsing grammar, the mesh / Green '
             'bands / IFP / keff / sensitivity builders, the Apollo3 reader and picker. These are decided on every run by (a) '
             'bit-exact correspondence of `convert` with common.convert_spectrum + data_convertor.convert_data on generated '
             'token lists (all four axes, both printing orders, gaps, ragged sub-spectra: same exception class), with an '
